@@ -221,7 +221,8 @@ const IGS_PROBES: [&str; 22] = [
     "L0,0,50,50:", "B10,10,60,60,0:", "Z5,5,40,40:", "O50,50,20:", "F1,1:", "W10,10,Hi@", "P20,20:", "D30,30:", "Q50,50,30,10:", "K50,50,20,0,90:", "G0,3,0,0,10,10,20,20:",
     "U10,10,90,90,1:", "f3,10,10,50,10,30,40:", "z3,10,10,50,10,30,40:", "V50,50,20,0,90:", "Y50,50,30,10,0,90:", "J50,50,30,10,0,90:", "G1,3,0,0,20,20:G2,3,30,30:",
 ];
-const RIP_PROBES: [&str; 14] = [
+const RIP_PROBES: [&str; 17] = [
+    "!|i8W4V00A0ZZ01|", "!|o8W4V8W4V|", "!|I8W4V00A08W|",
     "!|L00000A0A|", "!|B05050K0K|", "!|@0505hello|", "!|F0A0A0F|", "!|C0K0K0A|", "!|o0K0K0A05|", "!|P03000010100A00|", "!|p03000010100A00|", "!|1C00000A0A00|1P050500|", "!|1U05050K0K0000000<>ok<>|",
     "!|Thello|", "!|X0101|", "!|I0K0K005A0A|", "!|e|E|*|",
 ];
@@ -607,6 +608,37 @@ impl Engine for Gfx {
                                             }
                                         }
                                     }
+                                }
+                            }
+                        }
+                    }
+                    4 if ci == 0 => {
+                        // blits (screen <-> memory) with far away and negative destinations, directly and through the loop arithmetic
+                        // ("-n" = loop value minus n), after a screen grab; numbers that do not fit 32 bit in every loop position
+                        for ty in ["0", "1", "2", "3", "4"] {
+                            for (w, h) in [("10", "10"), ("99999", "99999"), ("319", "199")] {
+                                for (dx, dy) in [("-99999", "-99999"), ("-50", "-50"), ("99999", "-99999"), ("0", "0"), ("-99999", "0")] {
+                                    shapes.push(format!("G#G1,3,0,0,{w},{h}:&>0,1,1,0,G,8,{ty},3,0,0,{w},{h},{dx},{dy}:\n"));
+                                    shapes.push(format!("G#G1,3,0,0,{w},{h}:G{ty},3,0,0,{w},{h},{dx},{dy}:\n"));
+                                    shapes.push(format!("G#&>0,1,1,0,G,8,{ty},3,0,0,{w},{h},{dx},{dy}:\n"));
+                                }
+                            }
+                        }
+                        for big in ["2147483647", "2147483648", "9999999999", "99999999999999999999"] {
+                            for pos in 0..4 {
+                                let mut v = ["0", "1", "1", "0"];
+                                v[pos] = big;
+                                shapes.push(format!("G#&>{},{},{},{},L,4,0,0,x,y:\n", v[0], v[1], v[2], v[3]));
+                            }
+                            shapes.push(format!("G#&>1,0,1,0,L,4,+{big},0,0,0:\n"));
+                            shapes.push(format!("G#&>0,2,1,0,L,4,x,-{big},!{big},y:\n"));
+                            shapes.push(format!("G#L{big},{big},0,0:\n"));
+                        }
+                        for a in self.igs_cmds.clone() {
+                            for b in ['L', 'B', 'F', 'G', 'W', 'X', 'R', '&'] {
+                                for v in ["0", "99999", "7"] {
+                                    shapes.push(format!("G#{a}{v},{v},{v},{v}:{b}{v},{v},{v},{v},{v},{v}:\n"));
+                                    shapes.push(format!("G#{a}{v},{v}_\n{v},{v}:{b}>{v},{v}:\nG#{b}{v}:\n"));
                                 }
                             }
                         }
